@@ -686,15 +686,14 @@ def inline_helpers(functions, inventory, root):
         if mode == 'assign':
             # `x = h(args);`: the body of h with every `return E;` turned into `x = E;`
             def mk(e, s=s):
-                a = dict(s)
-                a.pop('id', None)
+                a = dict(s)         # keeps the id of the assignment: the CFG element of `x = h(..)` stands for (one of) the assignments it became
                 a['c'] = [s['c'][0], e]
                 return a
-            b2 = _returns_as(body, mk)
+            b2 = _returns_as(_param_subst(body, params, args), mk)
             if b2 is None:
                 return None
             count += 1
-            return [_param_subst(b2, params, args)]
+            return [b2]
         if mode == 'init':
             top = list(body.get('c') or ())
             if len(rets) != 1 or not top or top[-1] is not rets[0] or not rets[0].get('c'):
@@ -707,7 +706,7 @@ def inline_helpers(functions, inventory, root):
 
                 def mk2(e, ref=ref, s=s):
                     return {'k': 'BinaryOperator', 'op': '=', 'c': [dict(ref), e], 't': ref.get('t'), 'loc': s.get('loc'), 'end': s.get('end')}
-                b2 = _returns_as(body, mk2)
+                b2 = _returns_as(_param_subst(body, params, args), mk2)
                 if b2 is None:
                     return None
                 nd = dict(vd)
@@ -715,7 +714,7 @@ def inline_helpers(functions, inventory, root):
                 ns = dict(s)
                 ns['c'] = [nd]
                 count += 1
-                return [ns, _param_subst(b2, params, args)]
+                return [ns, b2]
             pre = {'k': 'CompoundStmt', 'c': top[:-1], 'loc': body.get('loc')}
             pre = _param_subst(pre, params, args)
             e = _param_subst(rets[0]['c'][0], params, args)
